@@ -43,6 +43,7 @@ where
     let l2 = log.clone();
     let handle = std::thread::spawn(move || {
         let mut c = RawConn::from_unix(server_end);
+        let mut nreplies = 0usize;
         loop {
             match c.read_frame(Duration::from_secs(30)) {
                 ReadEv::Frame(f) => match serde_json::from_slice::<Value>(&f) {
@@ -60,7 +61,24 @@ where
                             };
                             b.push(0);
                             l2.lock().unwrap().push(SrvEv::Reply { t: tick(), value: r });
-                            if c.write_all(&b).is_err() {
+                            // every third reply reaches the client in two segments with a pause
+                            // in between (cut before the NUL, or in the middle): a reply is
+                            // complete at its NUL, not at the end of a read
+                            nreplies += 1;
+                            let cut = match nreplies % 6 {
+                                0 => Some(b.len() - 1),
+                                3 => Some(b.len() / 2),
+                                _ => None,
+                            };
+                            let ok = match cut {
+                                Some(k) if k > 0 && k < b.len() => {
+                                    let first = c.write_all(&b[..k]).is_ok();
+                                    std::thread::sleep(Duration::from_micros(300));
+                                    first && c.write_all(&b[k..]).is_ok()
+                                }
+                                _ => c.write_all(&b).is_ok(),
+                            };
+                            if !ok {
                                 return;
                             }
                         }
